@@ -57,9 +57,9 @@ MIN_EVENTS = {
     'quick': {'refused_accesses_judged': 18000, 'granted_accesses_seen': 5000, 'disclosure_scans': 20000,
               'value_unchanged_checks': 10000, 'mixed_order_requests': 3500, 'value_attributes_exercised': 1900,
               'eatt_accesses': 14000, 'refusals_with_matching_error': 5000},
-    'thorough': {'refused_accesses_judged': 180000, 'granted_accesses_seen': 50000, 'disclosure_scans': 200000,
-                 'value_unchanged_checks': 100000, 'mixed_order_requests': 35000, 'value_attributes_exercised': 19000,
-                 'eatt_accesses': 140000, 'refusals_with_matching_error': 50000},
+    'thorough': {'refused_accesses_judged': 430000, 'granted_accesses_seen': 120000, 'disclosure_scans': 480000,
+                 'value_unchanged_checks': 240000, 'mixed_order_requests': 84000, 'value_attributes_exercised': 45000,
+                 'eatt_accesses': 336000, 'refusals_with_matching_error': 120000},
 }
 CASE_TIMEOUT = 300
 
@@ -72,7 +72,7 @@ DESC_PERM_ORDER = [(i * 37 + 11) % 256 for i in range(256)]     # a permutation 
 
 def plan(tier, seed):
     cases = []
-    reps = 1 if tier == 'quick' else 10
+    reps = 1 if tier == 'quick' else 24
     for rep in range(reps):
         for chunk in range(8):
             for li in range(3):
@@ -544,7 +544,7 @@ async def run_case(case, r: R):
                 'declaration_patterns': [d['pattern'] for d in decl_groups]}
 
 
-LEVEL_TEXT = ('Independent permission predicate + unique marker values: for 48 (quick) / 480 (thorough) sessions covering '
+LEVEL_TEXT = ('Independent permission predicate + unique marker values: for 48 (quick) / 1152 (thorough) sessions covering '
               'all 256 permission bytes on value attributes and on descriptors, three link-security states and both bearer '
               'kinds, every attribute of a generated database (values, descriptors, CCCDs, declarations, built-in services) '
               'is attacked through Read, Read Blob, Write Request and Write Command, and every open/protected order of '
